@@ -295,6 +295,10 @@ PINS = [
     ("pinGetWidthAndCheck", "Check", "src/ast.rs", "pub fn get_width_and_check<'a>("),
     ("pinFixMuxWidths", "Check", "src/ast.rs", "pub fn fix_mux_widths<'a>("),
     ("pinEvaluate", "Check", "src/ast.rs", "pub fn evaluate<'a>("),
+    ("pinApplyToAll", "Refs", "src/ast.rs", "pub fn apply_to_all<'a, 'b, F>("),
+    ("pinApplyToAllMut", "Refs", "src/ast.rs", "pub fn apply_to_all_mut<F>("),
+    ("pinReferencedWires", "Refs", "src/ast.rs", "pub fn referenced_wires<'a>("),
+    ("pinFindReferences", "Refs", "src/ast.rs", "pub fn find_references<'a>("),
     ("pinMainReal", "Main", "src/main.rs", "fn main_real()"),
     ("pinFormatForContents", "Errors", "src/errors.rs", "pub fn format_for_contents<W: Write>"),
     ("pinFormatTokenList", "Errors", "src/errors.rs", "fn format_token_list(tokens"),
